@@ -2,6 +2,7 @@
     Property theorems only. *)
 From Coq Require Import ZArith List Bool String.
 From PV Require Import Model.Base Model.Sched Model.Seq Gen.Switch.
+From PV Require Proofs.SourceTie.
 From PV Require Import Proofs.SchedInv Proofs.SeqInv Proofs.SwitchSpec.
 Import ListNotations.
 Open Scope Z_scope.
@@ -39,3 +40,10 @@ Theorem C18_strict_sound_refuted :
     ends_of (run (senv_of (c_min g)) ops) <> ends_of (run (senv_of (c_min g')) ops).
 Proof. exact strict_sound_refuted. Qed.
 Print Assumptions C18_strict_sound_refuted.
+
+(** The whole translation tie of the scheduler (see Proofs/SourceTie.v): every
+    scheduler function of the model this property's theorems rest on is equal to
+    the function regenerated from the current source. *)
+Theorem C18_source_scheduler : SourceTie.scheduler_tied.
+Proof. exact SourceTie.scheduler_source_tie. Qed.
+Print Assumptions C18_source_scheduler.
